@@ -79,3 +79,34 @@ class Interpreter:
         finally:
             if attached is not None:
                 attached.withParent(None)
+
+
+def render(value):
+    # the text of a value for a host that prints it (the runner, the REPL):
+    # data nested deeper than the host's stack, or holding itself, is the
+    # same runtime error here as inside interpret
+    try:
+        return str(value)
+    except RecursionError:
+        raise CklRuntimeError(
+            ValueString("ERROR"), "Recursion too deep"
+        ) from None
+
+
+def render_error(e):
+    # the lines a host prints for an uncaught runtime error; after
+    # `error <value>` the value is the message as well
+    def text(x):
+        try:
+            return str(x)
+        except RecursionError:
+            return "<" + x.type() + "> (Recursion too deep)"
+
+    lines = [
+        text(e.value.value if e.value.isString() else e.value)
+        + ": " + text(e.msg)
+        + " (Line " + str(e.pos) + ")"
+    ]
+    for st in e.stacktrace or []:
+        lines.append(str(st))
+    return lines
